@@ -578,6 +578,47 @@ def check_buckets(res, facts):
                 rule.bad(key, "the bucket table has %s entries (P = 2^c) but %s: the largest digit indexes past the table" % (q, "the last signed digit keeps the final carry and can equal 2^c, which needs index 2^c - 1" if signed else "window values reach 2^c - 1, which needs index 2^c - 2"), fn.loc)
 
 
+def check_digitalign(res, facts):
+    """msm_bigint_wnaf cuts every scalar into digit rows up front and later pairs row i (scalar_digits.chunks(digits_count))
+    with base i BY POSITION.  So the traversal of `scalars` that feeds make_digits must visit every scalar, in order: any
+    adaptor that drops, reorders or stops early (filter, skip, rev, take_while, step_by ..) on that side alone shifts the
+    rows against the bases -- each base is then multiplied by a later scalar.  Decided in the serial and in the parallel
+    build (the two digit extractions are separate cfg twins)."""
+    from rules.c07 import E, show
+    rule = res.rule("R-DIGITALIGN", "the scalar traversal feeding make_digits in msm_bigint_wnaf visits every scalar in order (digit rows are paired with bases by position), serial and parallel twins", 2)
+    PURE = {"iter", "into_iter", "par_iter", "into_par_iter", "copied", "cloned", "by_ref", "deref", "as_ref", "borrow"}
+    for unit in ("ws", "par"):
+        for fn in facts.fns(unit=unit, crate="ark_ec"):
+            if fn.name != "msm_bigint_wnaf" or fn.default_of or fn.impl or fn.kind == "Closure":
+                continue
+            key = "ark_ec|%s|msm_bigint_wnaf" % unit
+            sites = []
+            for bb, t in fn.calls():
+                if t["f"].get("name") not in ("flat_map", "flat_map_iter", "map", "for_each") or len(t["args"]) != 2:
+                    continue
+                for cid in closure_args(fn, t):
+                    clo = facts.get(cid, unit)
+                    if clo is not None and any(ct["f"].get("name") == "make_digits" for _, ct in clo.calls()):
+                        sites.append((bb, t))
+            if not sites:
+                rule.bad(key, "no adaptor over the scalars whose closure calls make_digits (anchor missing)", fn.loc)
+                continue
+            problems = []
+            for bb, t in sites:
+                e = E(fn, t["args"][0])
+                chain = []
+                while isinstance(e, tuple) and e and e[0] == "call" and e[2] and (e[1] in PURE or (e[1] == "index" and len(e[2]) == 2 and show(e[2][1]).startswith("RangeTo"))):
+                    chain.append(e[1])      # a prefix `[..k]` keeps every remaining scalar at its position
+                    e = e[2][0]
+                if not (isinstance(e, tuple) and e and e[0] == "arg" and fn.local_ty(e[1]).startswith("&[")):
+                    head = e[1] if isinstance(e, tuple) and len(e) > 1 and e[0] == "call" else show(e)[:40]
+                    problems.append("the scalars reach make_digits through `%s` (%s)" % (head, show(E(fn, t["args"][0]))[:90]))
+            if problems:
+                rule.bad(key, "; ".join(problems) + ": digit rows are paired with the bases by position, so an adaptor that drops or reorders scalars on this side alone pairs every later base with the wrong scalar", fn.loc)
+            else:
+                rule.ok(key, "plain traversal of the scalar slice", fn.loc)
+
+
 def run(ctx, res):
     facts = ctx.facts(["ws", "par"])
     res.analysed = facts.stats()
@@ -588,6 +629,7 @@ def run(ctx, res):
     check_digits(res, facts, ctx.tier)
     check_stream(res, facts)
     check_buckets(res, facts)
+    check_digitalign(res, facts)
     return {
         "level": "other",
         "explanation": "Typestate / pairing rules over the MIR of ark-ec's variable-base MSM and streaming Pippenger code (serial and parallel configurations): lock-step mutation of paired buffers, length policy of checked and unchecked entry points, flush/finalize structure, window recombination. Does NOT decide that any entry point returns the sum (digit extraction and bucket indexing are run-time index arithmetic).",
